@@ -13,8 +13,9 @@ The clang JSON AST of the INSTANTIATED members of LeastSquares<double> is execut
     [params -> src_ls];
   * the float instantiation is translated too and must give the same text (the class is one template: a `if constexpr`-like
     divergence between the two would show).
-coq/SrcTieC07.v proves every generated transformer equal to the operation of coq/LsModel.v the theorems of Properties_C07.v
-(and C05 / C12) are about, for every numeric dictionary.
+coq/SrcTieLs.v (reading of the record as the model's state, covariance) and coq/SrcTieC07.v prove every generated transformer equal to
+the operation of coq/LsModel.v the theorems of Properties_C07.v are about, for every numeric dictionary; coq/SrcTieC12Ls.v ties
+computeEstimateCovariance to PoseCovModel.ls_covariance for C12.
 
 TRUSTED VOCABULARY (coq/SrcEigenDyn.v; each Eigen operation is mapped to ONE named operation there):
   Matrix() Vector() -> dm_empty dv_empty;  Matrix::Zero(r,c) Identity(r,c) Constant(r,c,x) -> dm_zero dm_identity dm_const;
